@@ -25,7 +25,7 @@ TECHNIQUE = ("Lean 4: invariant proof over countNode histories (any isNodeAfter 
              "to the XSLT 1.0 section 7.7 specification, round-trip proofs for the formatters over tables regenerated from the "
              "source; two translators (tables, code-shape facts and flags); lock-step correspondence of generated stylesheets "
              "numbering every node (attributes included) in several histories, next to the defining count() expression")
-LEVEL_TEXT = ("Machine-checked (25 theorems, axioms propext/Classical.choice/Quot.sound): (a) for every history of "
+LEVEL_TEXT = ("Machine-checked (27 theorems, axioms propext/Classical.choice/Quot.sound): (a) for every history of "
               "CountersTable::countNode calls and every isNodeAfter oracle the cached answer equals the from-scratch "
               "getPreviousNode chain length; (b) for every well-formed document, every instruction (level single/multiple/any, "
               "explicit or default count, with or without from), every history, the transcribed navigation + cache prints the "
@@ -34,7 +34,7 @@ LEVEL_TEXT = ("Machine-checked (25 theorems, axioms propext/Classical.choice/Quo
               "complete), decimal with padding and with grouping (buffer accounting of applyGrouping), and formatNumberList for "
               "every format string and every list whose numbers fit their token types, with and without grouping, decode back. "
               "Tied to the working tree by translators (roman/alphabetic/Greek tables, limits, code-shape facts, four behaviour "
-              "flags the model is parametrised by, the admission condition of the run-time pattern cache) and by running generated stylesheets through the real library and the compiled "
+              "flags the model is parametrised by, the admission condition, capacity and eviction shape of the run-time pattern cache) and by running generated stylesheets through the real library and the compiled "
               "Lean model: every node of generated documents (elements in three namespace situations, text, comments, PIs, "
               "attributes) numbered in document, reverse, shuffled, sorted and repeating orders, each result also compared with "
               "the Lean specification, with the count() expression printed in the same run and with the section 7.7.1 layout; value= "
@@ -65,6 +65,8 @@ THEOREMS = [
     "XalanModel.Props.C17.number_spec_any_zero_counterexample",
     "XalanModel.Props.C17.pattern_cache_never_serves_prefixed",
     "XalanModel.Props.C17.default_count_pattern_not_cached",
+    "XalanModel.Props.C17.pattern_cache_transparent",
+    "XalanModel.Props.C17.pattern_cache_overwrite_counterexample",
     "XalanModel.Props.C17.alpha_roundtrip",
     "XalanModel.Props.C17.alpha_no_overflow",
     "XalanModel.Props.C17.traditional_roundtrip_partial",
@@ -218,6 +220,37 @@ def gen_cases(r, ndocs, maxnodes, ninstr, kinds):
                     hs.append(G.gen_history(r, n, k))
             io.append((ins, hs))
         cases.append(Case(root, io))
+    return cases
+
+
+def many_names_cases(r, ndocs, lo=60, hi=120):
+    """documents with more distinct element names than the run-time pattern cache holds (capacity read by the translator,
+    50), every name several times, numbered with the default count at all three levels in several rounds and orders within
+    one transformation: every default pattern is compiled through the cache, evicted and needed again"""
+    cases = []
+    for _ in range(ndocs):
+        nn = r.range(lo, hi)
+        names = ["e%d" % i for i in range(nn)]
+        # every name 2-3 times, shuffled, in a random nesting (depth <= 4)
+        seq = r.shuffle([n for n in names for _ in range(r.range(2, 3))])
+        spec_top = ["r"]
+        stack = [spec_top]
+        for nm in seq:
+            while len(stack) > 1 and r.chance(1, 3):
+                stack.pop()
+            el = [nm]
+            stack[-1].append(el)
+            if len(stack) < 4 and r.chance(1, 3):
+                stack.append(el)
+        root = G.tree_from_spec([spec_top])
+        n = len(G.preorder(root))
+        ids = list(range(1, n))
+        rounds = [ids + ids,                       # two rounds in document order: every name is evicted and needed again
+                  ids[::-1] + ids,                 # reverse, then forward
+                  r.shuffle(ids) + r.shuffle(ids)[: n // 2]]
+        io = [(I(lv), [rounds[i]]) for i, lv in enumerate(("any", "single", "multiple"))]
+        io.append((I(r.choice(["any", "multiple"])), [r.shuffle(ids + ids)]))
+        cases.append(Case(root, io, "many-names"))
     return cases
 
 
@@ -1034,6 +1067,13 @@ def run(ctx):
                "correspondence", a1 and a2, json.dumps(ctx.extra.get("model_disagreements", [])[:2], ensure_ascii=False, default=str))
     ctx.oblige("oracle: count() expression printed in the same run = Lean section 7.7 specification", "correspondence", o1 and o2,
                json.dumps(ctx.extra.get("oracle_disagreements", [])[:2], ensure_ascii=False))
+
+    # 2b. more distinct default count patterns than the run-time pattern cache holds
+    problems = evaluate(ctx, many_names_cases(r, 2 if not ctx.thorough else 12), harness, model, "names")
+    a2b, o2b = report(ctx, problems, harness, model)
+    ctx.oblige("correspondence: default count with 60-120 distinct element names in one transformation (pattern cache eviction) = Lean model "
+               "and = the count() expression of the same run", "correspondence", a2b and o2b,
+               json.dumps((ctx.extra.get("model_disagreements", []) + ctx.extra.get("oracle_disagreements", []))[:2], ensure_ascii=False, default=str)[:1500])
 
     # 3. small-scope exhaustive (thorough): all trees with <= 5 element nodes over 2 names, fixed instruction set, all orders of <= 4 nodes
     if ctx.thorough:
